@@ -71,6 +71,7 @@ pub struct WebSocketFramed<T, C, E, D> {
     decode_item: PhantomData<D>,
     buffer: Option<BytesMut>,
     readable: bool,
+    errored: bool,
 }
 
 impl<T, C, E, D> Unpin for WebSocketFramed<T, C, E, D> {}
@@ -81,7 +82,7 @@ where
     C: Encoder<E, Error = anyhow::Error> + Decoder<Item = D, Error = anyhow::Error> + Unpin,
 {
     pub fn new(stream: WebSocketStream<T>, codec: C) -> Self {
-        Self { stream, codec, encode_item: PhantomData, decode_item: PhantomData, buffer: None, readable: false }
+        Self { stream, codec, encode_item: PhantomData, decode_item: PhantomData, buffer: None, readable: false, errored: false }
     }
 }
 
@@ -94,6 +95,10 @@ where
     type Item = Result<D>;
 
     fn poll_next(mut self: Pin<&mut Self>, cx: &mut Context<'_>) -> Poll<Option<Self::Item>> {
+        // a decode error ends the stream: nothing that follows undecodable bytes is delivered
+        if self.errored {
+            return Poll::Ready(None);
+        }
         loop {
             // deliver every frame that is already buffered before waiting for the next message
             if self.readable {
@@ -105,7 +110,10 @@ where
                     match decoded {
                         Ok(Some(item)) => return Poll::Ready(Some(Ok(item))),
                         Ok(None) => {}
-                        Err(e) => return Poll::Ready(Some(Err(e))),
+                        Err(e) => {
+                            self.errored = true;
+                            return Poll::Ready(Some(Err(e)));
+                        }
                     }
                 }
                 self.readable = false;
